@@ -50,6 +50,7 @@ theorem tip_trough_eq (n : Nat) : Src.C14.tip_trough (n : Int) = tipTroughEvents
 /-- `idx_all[idx_over] = arr_peak.shape[1] - 1` is the model's last sample … -/
 theorem recovery_last_eq (T : Nat) (hT : 0 < T) : Src.C14.recovery_last (T : Int) = (lastSample T : Int) := by
   unfold Src.C14.recovery_last lastSample
+  (try dsimp only)
   omega
 
 /-- … and it is the recovery index of the model's `recoveryRow` whenever trough + offset runs past the end. -/
@@ -64,21 +65,24 @@ theorem pt_duration_eq (f : Feat) (fs : Int) :
     ((Src.C14.pt_duration f.peakTime f.troughTime fs).1 : ℚ) / ((Src.C14.pt_duration f.peakTime f.troughTime fs).2 : ℚ)
       = f.peakToTroughDuration fs := by
   unfold Src.C14.pt_duration Feat.peakToTroughDuration idiff
-  rfl
+  first
+    | rfl
+    | (dsimp only; push_cast; ring)
 
 theorem hp_duration_eq (f : Feat) (fs : Int) :
     ((Src.C14.hp_duration f.halfPost f.halfPre fs).1 : ℚ) / ((Src.C14.hp_duration f.halfPost f.halfPre fs).2 : ℚ)
       = f.halfPeakDuration fs := by
   unfold Src.C14.hp_duration Feat.halfPeakDuration idiff
-  rfl
+  first
+    | rfl
+    | (dsimp only; push_cast; ring)
 
-/-- float division of `v · fs` by an integer index difference = division of `v` by the duration `dt / fs` -/
-theorem xdiv_frac (v : ℚ) (dt fs : Int) (hfs : 0 < fs) : xdiv (v * (fs : ℚ)) (dt : ℚ) = xdiv v ((dt : ℚ) / (fs : ℚ)) := by
+/-- float division of `v · fs` by an index difference = division of `v` by the duration `dt / fs` -/
+theorem xdiv_frac (v dt : ℚ) (fs : Int) (hfs : 0 < fs) : xdiv (v * (fs : ℚ)) dt = xdiv v (dt / (fs : ℚ)) := by
   have hq : (0 : ℚ) < (fs : ℚ) := by exact_mod_cast hfs
   unfold xdiv
-  by_cases hdt : (dt : ℚ) = 0
-  · have h0 : (dt : ℚ) / (fs : ℚ) = 0 := by rw [hdt, zero_div]
-    have hv0 : v * (fs : ℚ) = 0 ↔ v = 0 := by
+  by_cases hdt : dt = 0
+  · have hv0 : v * (fs : ℚ) = 0 ↔ v = 0 := by
       constructor
       · intro h; rcases mul_eq_zero.mp h with h | h
         · exact h
@@ -88,8 +92,8 @@ theorem xdiv_frac (v : ℚ) (dt fs : Int) (hfs : 0 < fs) : xdiv (v * (fs : ℚ))
       constructor
       · intro h; by_contra hn; have := mul_nonpos_of_nonpos_of_nonneg (not_lt.mp hn) (le_of_lt hq); linarith
       · intro h; exact mul_pos h hq
-    simp only [hdt, h0, if_true, hv0, hvp]
-  · have h0 : (dt : ℚ) / (fs : ℚ) ≠ 0 := div_ne_zero hdt (ne_of_gt hq)
+    simp only [hdt, zero_div, if_true, hv0, hvp]
+  · have h0 : dt / (fs : ℚ) ≠ 0 := div_ne_zero hdt (ne_of_gt hq)
     simp only [hdt, h0, if_false]
     congr 1
     field_simp
@@ -102,8 +106,8 @@ theorem depol_slope_eq (f : Feat) (pv tv : Int) (hpv : f.peakVal = pv) (htv : f.
     xdiv (sl.1 : ℚ) (sl.2 : ℚ) = f.depolSlope fs := by
   intro volt dur sl
   simp only [sl, dur, volt, Src.C14.depol_slope, Src.C14.depol_duration, Src.C14.depol_volt, Feat.depolSlope, idiff, hpv, htv]
-  push_cast
-  exact xdiv_frac _ _ _ hfs
+  rw [← xdiv_frac _ _ fs hfs]
+  congr 1 <;> (push_cast; first | done | ring)
 
 /-- repolarisation slope -/
 theorem repol_slope_eq (f : Feat) (pv tv : Int) (hpv : f.peakVal = pv) (htv : f.troughVal = tv) (fs : Int) (hfs : 0 < fs) :
@@ -113,8 +117,8 @@ theorem repol_slope_eq (f : Feat) (pv tv : Int) (hpv : f.peakVal = pv) (htv : f.
     xdiv (sl.1 : ℚ) (sl.2 : ℚ) = f.repolSlope fs := by
   intro volt dur sl
   simp only [sl, dur, volt, Src.C14.repol_slope, Src.C14.repol_duration, Src.C14.repol_volt, Feat.repolSlope, idiff, hpv, htv]
-  push_cast
-  exact xdiv_frac _ _ _ hfs
+  rw [← xdiv_frac _ _ fs hfs]
+  congr 1 <;> (push_cast; first | done | ring)
 
 /-- recovery slope -/
 theorem rec_slope_eq (f : Feat) (rv tv : Int) (hrv : f.recVal = rv) (htv : f.troughVal = tv) (fs : Int) (hfs : 0 < fs) :
@@ -124,8 +128,8 @@ theorem rec_slope_eq (f : Feat) (rv tv : Int) (hrv : f.recVal = rv) (htv : f.tro
     xdiv (sl.1 : ℚ) (sl.2 : ℚ) = f.recoverySlope fs := by
   intro volt dur sl
   simp only [sl, dur, volt, Src.C14.rec_slope, Src.C14.rec_duration, Src.C14.rec_volt, Feat.recoverySlope, idiff, hrv, htv]
-  push_cast
-  exact xdiv_frac _ _ _ hfs
+  rw [← xdiv_frac _ _ fs hfs]
+  congr 1 <;> (push_cast; first | done | ring)
 
 /-! ### non-vacuity -/
 
